@@ -99,7 +99,7 @@ func (r *getRequest) executeHandler() {
 				str = e.Message
 			}
 		case error:
-			str = e.Error()
+			str = errString(e)
 			if !r.replied {
 				r.Error(ToError(e))
 			}
